@@ -423,6 +423,11 @@ def explore(fn: Callable[[], Any], max_paths: int = 20000, timeout_ms: int = 600
             except PathLimit as e:
                 out.detail = str(e)
                 return _fin(out, ctx)
+            except Exception as e:
+                # the code under test raised on this path: the property does not hold there unless the path is infeasible; the
+                # caller's native replay decides whether the real code does the same (a harness slip does not reproduce)
+                out.detail = f"raised {type(e).__name__}: {str(e)[:200]}"
+                prop = False
             out.paths += 1
             for i in range(len(prefix), len(ctx.trace)):
                 if ctx.alts[i]:
@@ -444,7 +449,7 @@ def explore(fn: Callable[[], Any], max_paths: int = 20000, timeout_ms: int = 600
             if r == "sat":
                 out.status = "cex"
                 out.model = _model_to_py(ctx.solver.model(), ctx.names)
-                out.detail = f"path {out.paths}: property false"
+                out.detail = f"path {out.paths}: property false" + (f" ({out.detail})" if out.detail.startswith("raised ") else "")
                 # z3 likes boundary values (ties with a threshold) that binary64 replay cannot hit: if the caller's validator
                 # rejects the model, ask for up to 4 other models of the same query that move every rejected value away
                 tries = 0
